@@ -2,8 +2,10 @@ package main
 
 import (
 	"fmt"
+	"time"
 
 	"verifharness/backend"
+	"verifharness/cluster"
 	"verifharness/common"
 	"verifharness/dfs"
 	"verifharness/simnet"
@@ -94,6 +96,90 @@ func unitC04orch(e common.Env, p *common.Part) {
 			p.Sample(map[string]interface{}{"config": oc.cfg.Name, "mode": "sampled", "runs": r.Traces})
 		}
 		p.Write(false)
+	}
+}
+
+// ---------------- C04 with sessions that run to completion (random mode) ----------------
+
+// unitC04live: the stepped worlds above keep every session open (deterministic quiescence); here sessions complete, so whatever
+// the orchestrator does when a party's call returns (cancel its context, clean up) races with the last messages' acknowledgements.
+func unitC04live(e common.Env, p *common.Part) {
+	p.Rule = "all-honest scripted sessions (key generation, then signing) of real Loud/barrier/silent schemes in random mode that RUN TO COMPLETION, N=3..5, two rounds of broadcasts (every second case with point-to-point traffic as well), five delivery policies (acknowledgements overtaking payloads); the backend's OnMsg that completes a party's last round returns only after that party's KeyGen/Sign has returned; oracle: every call returns nil and every message was handed over exactly once everywhere; distinct key = (N, mode, policy, index); non-trivial always"
+	p.Assumptions = append(p.Assumptions, "completion is judged with a 5 s watchdog; a session that missed it although the network had been empty and the event log silent for >= 2 s when the deadline fired is reported at once, any other deadline only after a replay in a fresh cluster at 4x")
+	n := e.Pick(90, 3000)
+	for i := 0; i < n; i++ {
+		if !e.Mine(i) || p.ViolationCount() >= 3 {
+			continue
+		}
+		r := e.Rng("c04live", i)
+		N := 3 + i%3
+		var ids []uint16
+		for k := 1; k <= N; k++ {
+			ids = append(ids, uint16(k))
+		}
+		mode := []string{"loud", "barrier", "silent"}[(i/3)%3]
+		polName, pol := policyByIndex(i, r, ids)
+		key := fmt.Sprintf("N=%d %s %s #%d", N, mode, polName, i)
+		p.Begin(key)
+		mk := func() *rcluster {
+			return newRCluster(cluster.Config{Map: identityMap(ids...), Silent: mode == "silent", Barrier: mode == "barrier", Threshold: N - 1}, r, pol)
+		}
+		c := mk()
+		// every second case has broadcasts only: then the message that completes a party's last round is a broadcast (with
+		// point-to-point traffic the last message on a link is the point-to-point one, which needs no acknowledgement)
+		script := backend.Script{Rounds: []uint8{1, 2}, Bcast: true, P2P: i%2 == 1, LingerOnMsg: 3 * time.Millisecond}
+		for _, sign := range []bool{false, true} {
+			timeout := 5 * time.Second
+			sc := sessCfg{Callers: ids, Sign: sign, Topic: fmt.Sprintf("c04live-%d", i), Digest: []byte("0123456789abcdef0123456789abcdef"), Script: script, Timeout: timeout}
+			setData := func() {
+				if sign {
+					for _, u := range ids {
+						c.Schemes[u].SetStoredData([]byte("share-of-x"))
+					}
+				}
+			}
+			setData()
+			res := c.run(sc)
+			phase := map[bool]string{false: "dkg", true: "sign"}[sign]
+			sig, what := "", ""
+			if u, err := allNil(res, ids); err != nil {
+				sig, what = "session-failed", fmt.Sprintf("node %d: %v", u, err)
+				if res.Elapsed >= timeout && res.QuietAtFirstReturn >= 2*time.Second {
+					// nothing had been transmitted, delivered or handed over for seconds when the deadline fired: not a slow machine
+					what += fmt.Sprintf(" (the network had been empty and silent for %v when the deadline fired)", res.QuietAtFirstReturn.Round(100*time.Millisecond))
+					p.Count("failed_in_silence", 1)
+				} else if res.Elapsed >= timeout {
+					c.Stop()
+					c = mk()
+					setData()
+					sc.Timeout = 4 * timeout
+					res = c.run(sc)
+					p.Count("watchdog_replays", 1)
+					if u, err := allNil(res, ids); err != nil {
+						sig, what = "session-failed", fmt.Sprintf("node %d: %v (also with a 4x deadline in a fresh cluster)", u, err)
+					} else {
+						sig, what = "", ""
+					}
+				}
+			}
+			if sig == "" {
+				sig, what = sessionTotality(c, sc, res)
+			}
+			if len(res.Panics) > 0 {
+				sig, what = "panic", res.Panics[0]
+			}
+			p.Case(key+" "+phase, true)
+			p.Count("sessions", 1)
+			if sig != "" {
+				p.Violate("totality/live/"+sig+"/"+phase, fmt.Sprintf("%s %s: %s", key, phase, what), map[string]interface{}{"ids": ids, "mode": mode, "phase": phase, "policy": polName, "log_tail": simnet.LogTail(c.eventsSince(res.FromSeq), 30)})
+				break
+			}
+			c.drain(100 * time.Millisecond)
+		}
+		c.Stop()
+		if i%19 == 0 {
+			p.Sample(map[string]interface{}{"case": key})
+		}
 	}
 }
 
